@@ -80,7 +80,24 @@ fn determinism_case(n: usize, format: Format, game: truth::Game, mode: &str, map
 
 /// sources with >= 2 competing entries in hash-ordered bookkeeping
 fn competing_source(rng: &mut Rng) -> gensrc::GenSource {
-    match rng.below(5) {
+    match rng.below(6) {
+        5 => {
+            // PCB ECL: the parameter list of a sub is inferred from its call sites on decompilation; call sites that
+            // disagree (different argument registers set before the call), in equal numbers
+            let mut text = String::from("script timeline0 {}\nvoid target0() {}\nvoid target1() {}\n");
+            let ints = [10037, 10038, 10039, 10040];
+            let floats = [10041, 10042, 10043, 10044];
+            let ncallers = 2 + rng.below(3);
+            for c in 0..ncallers {
+                let mut body = String::new();
+                let shape = rng.below(4);
+                if shape == 0 || shape == 2 { for r in &ints[..1 + rng.below(2)] { body.push_str(&format!("    $REG[{r}] = {};\n", 1 + rng.below(9))); } }
+                if shape == 1 || shape == 2 { for r in &floats[..1 + rng.below(2)] { body.push_str(&format!("    %REG[{r}] = {}.0;\n", 1 + rng.below(9))); } }
+                body.push_str(&format!("    ins_41(target{});\n", if rng.chance(3, 4) { 0 } else { 1 }));
+                text.push_str(&format!("void caller{c}() {{\n{body}}}\n"));
+            }
+            gensrc::GenSource { format: Format::Ecl, game: truth::Game::Th07, text, maps: vec![] }
+        },
         4 => {
             // several bad signatures / unknown enums in a mapfile: several diagnostics from one table walk
             let game = truth::Game::Th12;
@@ -141,7 +158,7 @@ impl Prop for C19 {
     fn id(&self) -> &'static str { "C19" }
     fn relation(&self) -> &'static str { "site table: every iteration over a hash container in /repo/src whose result can reach output is mapped to a permutation-invariance lemma of Props/C19.lean (tools/order_sites.py); dynamic: repeated fresh-process runs" }
     fn rule(&self) -> &'static str {
-        "commands (compile with --output-debug-info, decompile under random options) of every tool on generated sources plus sources built to have >= 2 competing entries in hash-ordered bookkeeping (registers under two names, exhausted scratch pool, many aliases/enums); each run in N fresh processes (quick 6, thorough 24): exit status, stdout, stderr, output file and debug info must be byte-identical; non-trivial = the command printed at least one diagnostic or wrote a file; distinct by case text"
+        "commands (compile with --output-debug-info, decompile under random options) of every tool on generated sources plus sources built to have >= 2 competing entries in hash-ordered bookkeeping (registers under two names, exhausted scratch pool, many aliases/enums, PCB subs whose call sites disagree about the arguments); each run in N fresh processes (quick 6, thorough 24): exit status, stdout, stderr, output file and debug info must be byte-identical; non-trivial = the command printed at least one diagnostic or wrote a file; distinct by case text"
     }
     fn theorems(&self) -> &'static [&'static str] { &["TruthModel.C19.sorted_consumer_perm_invariant"] }
     fn timeout_secs(&self) -> u64 { 120 }
@@ -151,7 +168,7 @@ impl Prop for C19 {
         let mut out = vec![];
         for k in 0..count {
             let g = if k % 2 == 0 { competing_source(rng) } else { gensrc::gen_any(rng) };
-            let mode = if rng.chance(2, 3) { "compile" } else { "decompile" };
+            let mode = if rng.chance(2, 3) && !g.text.contains("void target0() {}") { "compile" } else { "decompile" };
             out.push(Case::search(Sexp::app("runs", vec![Sexp::int(n), Sexp::atom(g.format.name()), Sexp::atom(format!("{}", g.game)), Sexp::atom(mode), Sexp::int(rng.below(32) as i64),
                 Sexp::list(g.maps.iter().map(|m| Sexp::str(m.clone())).collect()), Sexp::str(g.text)])).tag(format!("{}-{}", mode, g.format.name())));
         }
